@@ -122,10 +122,13 @@ static std::vector<Op> buildAlphabet(const std::string& name, Limits& L, const s
         A.push_back(opFrame("ok", "app", 0, L)); A.push_back(opFrame("ok", "app", 2, L)); A.push_back(opFrame("ok", "0", 1, L));
         A.push_back(opFrame("ok", "n+1", 0, L)); A.push_back(opFrame("addpoints", "0", 1, L)); A.push_back(opFrame("addanalogs", "0", 1, L));
         A.push_back(opColPoint("ok", 1, L)); A.push_back(opColAnalog("ok", 1, L));
-        A.push_back(opBigObject(33, 17, 129)); A.push_back(opBigObject(65, 0, 17)); A.push_back(opBigObject(0, 33, 33)); A.push_back(opBulkPoints(17));   // counts beyond the shape guards (and more than 64 KiB of data), reached by repeating one call
+        A.push_back(opBigObject(33, 17, 129)); A.push_back(opBigObject(65, 0, 17)); A.push_back(opBigObject(0, 33, 33)); A.push_back(opBigObject(50, 1, 130)); A.push_back(opBigObject(40, 3, 120)); A.push_back(opBulkPoints(17));   // (analog samples per frame = 34, 33, 2, 6: every residue of the fill level modulo 4 at the 64 KiB mark)   // counts beyond the shape guards (and more than 64 KiB of data), reached by repeating one call
         A.push_back(opParamCopyOfStored("NEWG", "X", "NEWG", "XR")); A.push_back(opParamCopyOfStored("NEWG", "X", "G2", "X")); A.push_back(opParam("lower_case_grp", "the_quick_brown_fox_jumps_over_a_lazy_dog_0189", pv("i7"), "d1", false, L));   // a stored parameter copied out, renamed and added again; every lower-case letter in a name
         A.push_back(opSubmitStored(0, "n", L)); A.push_back(opSubmitStored(0, "n+1", L)); A.push_back(opSubmitStored(0, "app", L));   // a stored frame handed back (append / past the end), then columns and a save
         A.push_back(opReload());
+        // objects with many frames are expensive to dump, save and reload: from them only a handful of calls go on (reload, one parameter, one column of each kind, a lock)
+        for (auto& op : A) { bool keep = op.name == "reload" || op.name.compare(0, 17, "param(NEWG:X=i7,") == 0 || op.name == "point(frames:ok,v1)" || op.name == "analog(frames:ok,v1)" || op.name == "lockGroup(NEWG)";
+            if (!keep) { auto e = op.enabled; op.enabled = [e](const World& w, const WSnap& sn) { return sn.o.frames.size() <= 8 && e(w, sn); }; } }
     } else if (name == "loaded") {  // C05 / C06 / C07 / C10: every editing call on objects LOADED from every single-deviation generated file (roots below)
         L.maxFrames = 4; L.maxPoints = 4; L.maxChans = 4; L.noColumnsOnGaps = true; L.documentedDevsOnly = true; L.noDuplicateDeclarations = true; L.noRateEditWithData = true; L.integerRateRatioOnly = true;
         A.push_back(opPoint("NEWP", L)); A.push_back(opAnalog("newc", L));
